@@ -1137,19 +1137,25 @@ where
 
             // Iterate backwards, moving cells towards the right.
             for i in (1..=(total_size_in_each_page.len() - 1)).rev() {
-                while total_size_in_each_page[i] < BtreePage::underflow_threshold(page_size) {
+                while total_size_in_each_page[i] < BtreePage::underflow_threshold(page_size)
+                    && number_of_cells_per_page[i - 1] > 1
+                {
                     number_of_cells_per_page[i] += 1;
                     total_size_in_each_page[i] += &cells[divider_cell].storage_size();
 
+                    // The cell that moves is the last one of the page on the left: every cell stays
+                    // in some page of a B+tree level, so the size leaving that page is its own.
                     number_of_cells_per_page[i - 1] -= 1;
-                    total_size_in_each_page[i - 1] -= &cells[divider_cell - 1].storage_size();
+                    total_size_in_each_page[i - 1] -= &cells[divider_cell].storage_size();
                     divider_cell -= 1;
                 }
             }
 
             // Second page has more data than the first one, make a little
             // adjustment to keep it left biased.
-            if total_size_in_each_page[0] < BtreePage::underflow_threshold(page_size) {
+            if total_size_in_each_page[0] < BtreePage::underflow_threshold(page_size)
+                && number_of_cells_per_page[1] > 1
+            {
                 number_of_cells_per_page[0] += 1;
                 number_of_cells_per_page[1] -= 1;
             };
